@@ -69,6 +69,14 @@ func families(thorough bool) []family {
 	// top-level set forms nested in if / progn / let / cond / dotimes / handler-bind, with readers before and
 	// after, in functions defined earlier and later, in another file and spelled user:name
 	fams = append(fams, family{name: "nset", cfg: gcfg{Names: ab, NestedSet: true, DefNames: 1, MaxW: 7 + 2*d, MaxItems: 3, HoleMaxW: 1, FinalMaxW: 2, Styles: 1, Files: true, FixParam: true, Redefine: true}})
+	// a local binding (let, let*, flet, labels, lambda / defun parameter, dotimes) with the name of a
+	// global that a top-level set defines; inside it the global is assigned with (set 'g v), read, quoted;
+	// the global is read again afterwards (in the session and by the host probe)
+	fams = append(fams,
+		family{name: "gshadow", cfg: gcfg{Names: ab, DefNames: 1, GSet: true, GSetExpr: true, NeedGSet: true, Dotimes: true, MaxW: 7 + d, MaxItems: 1, HoleMaxW: 1, Styles: 1, FixParam: true}},
+		// the same with the global living in a named package, exported and imported
+		family{name: "gshadow-pkg", cfg: gcfg{Names: ab, DefNames: 1, GSet: true, GSetExpr: true, NeedGSet: true, Packages: true, MaxW: 8 + d, MaxItems: 4, HoleMaxW: 1, FinalMaxW: 4, Styles: 1, FixParam: true}},
+	)
 	fams = append(fams,
 		// the other spellings the export builtin accepts: (export '(n m)) and (export "n")
 		family{name: "expform", cfg: gcfg{Names: ab, ExportForms: true, Packages: true, MaxW: 6 + d, MaxItems: 4, HoleMaxW: 1, FinalMaxW: 2, Styles: 1, FixParam: true}},
@@ -484,6 +492,7 @@ func featureList(c gcfg) []string {
 	add(c.Data, "keyword / quoted symbol / quoted list data")
 	add(c.MaxItems > 0, "defun, top-level set, top-level statements")
 	add(c.Styles > 1, "&key/&optional/&rest parameters and keyword calls")
+	add(c.GSetExpr, "(set 'g v) in value position")
 	add(c.GSet, "(set 'g v) assignment of top-level-set globals inside bodies")
 	add(c.Macros, "defmacro with quasiquote templates")
 	add(c.QTemplates, "templates that mention pkg:name (as variable and as function)")
